@@ -207,4 +207,15 @@ PROPS = {
             "thorough": [dict(test="TestC15Scheduler", checks=40000, shards=16, timeout=3000)],
         },
     ),
+    "C19": dict(
+        kind="ext", pkg="./c19", level="exploration", engine="bubble",
+        technique="property-based fault injection on virtual time (rapid + synctest): scripted per-node outcomes and latencies behind the production multi-client; oracle computed from the script (earliest success time, error classes, call log)",
+        level_text="Generated configurations of primaries / fallbacks with per-node outcome (success, each error class, context-respecting hang, hard hang) and latency, provide- and submit-style calls, caller cancellation; "
+                   "the call must succeed with exactly one succeeding primary's value at the virtual time of the earliest success, consult fallbacks only on unavailability-class failures of all primaries, and return at the cancellation instant when nodes respect their context.",
+        level_note="Mixed error classes assert nothing about fallback use (the implementation keys on the last error); a hung primary with no succeeding primary legitimately blocks; distinct latencies make completion order well defined.",
+        runs={
+            "quick": [dict(test="TestC19Multi", checks=15000, shards=4)],
+            "thorough": [dict(test="TestC19Multi", checks=300000, shards=16, timeout=3000)],
+        },
+    ),
 }
